@@ -18,6 +18,7 @@
 import BioCantor.Proofs.CacheLru
 import BioCantor.Proofs.CacheState
 import BioCantor.Proofs.CacheOperands
+set_option autoImplicit false   -- an unresolved name in a statement must be an error, never a bound variable
 namespace BioCantor.Props.C10
 open BioCantor BioCantor.Model.Cache BioCantor.Proofs.Cache
 open BioCantor.Spec.Cache (Ev Ans CdsOp recent expectEv expectEvs expectEvsObj okLru okMemo freshAns okCdsHist)
